@@ -123,7 +123,15 @@ fn main() {
                     let sc = scm::explore(&j.program, scm::Mode::explore(&j.program), 5_000_000);
                     std::panic::set_hook(Box::new(|_| {}));
                     let (sum, _) = subject::run(&j.program, &j.cfg, |_: &subject::IterData| {});
-                    println!("ref_bad={:?} ref_outcomes={} loom={} iters={} :: {}", sc.bad_kinds(), sc.done.len(), sum.verdict.short(), sum.iterations, j.program.text());
+                    let mut m2 = scm::Mode::explore(&j.program);
+                    m2.spur_yield = true;
+                    let sc2 = scm::explore(&j.program, m2, 5_000_000);
+                    println!("ref_bad={:?} ref_outcomes={} restricted_outcomes={} loom={} iters={} :: {}", sc.bad_kinds(), sc.done.len(), sc2.done.len(), sum.verdict.short(), sum.iterations, j.program.text());
+                    if std::env::var("VMC_SHOW_OUTCOMES").is_ok() {
+                        for o in &sc.done {
+                            println!("   {} {}", if sc2.done.contains(o) { "both      " } else { "full only " }, ir::fmt_outcome(o));
+                        }
+                    }
                 } else {
                     println!("{}", serde_json::to_string(&j.program).unwrap());
                 }
